@@ -383,6 +383,7 @@ Lemma tables_ok_all : forall T, tables_ok T = true ->
       /\ t_convert_skips_art T = false).
 Proof.
   intros T H. unfold tables_ok in H.
+  apply andb_true_iff in H; destruct H as [H _].
   apply andb_true_iff in H; destruct H as [H H10]. apply andb_true_iff in H; destruct H as [H H9].
   apply andb_true_iff in H; destruct H as [H H8]. apply andb_true_iff in H; destruct H as [H H7].
   apply andb_true_iff in H; destruct H as [H H6]. apply andb_true_iff in H; destruct H as [H H5].
@@ -401,6 +402,19 @@ Lemma tables_ok_flags : forall T, tables_ok T = true ->
   t_disabled_check T = true /\ t_dnc_skips_art T = false /\ t_unspec_skips_art T = false
   /\ t_convert_skips_art T = false.
 Proof. intros T H. exact (proj2 (tables_ok_all T H)). Qed.
+
+Lemma tables_ok_scope_options : forall T, tables_ok T = true ->
+  (forall ur rc, top_ur T ur rc = ur) /\ (forall ur rc, nested_ur T ur rc = false)
+  /\ (forall u, t_call_options_user_requested T u = false).
+Proof.
+  intros T H. unfold tables_ok in H. apply andb_true_iff in H; destruct H as [_ H].
+  unfold scope_options_ok in H. simpl in H.
+  repeat match goal with X : _ && _ = true |- _ => apply andb_true_iff in X; destruct X end.
+  repeat match goal with X : Bool.eqb _ _ = true |- _ => apply eqb_prop in X end.
+  repeat match goal with X : negb _ = true |- _ => apply negb_true_iff in X end.
+  unfold top_ur, nested_ur.
+  split; [|split]; [intros [|] [|] | intros [|] [|] | intros [|]]; assumption.
+Qed.
 
 Lemma balance_tables_ok_inv : forall T, balance_tables_ok T = true -> ctx_ok T = true /\ scope_ok T = true.
 Proof. intros T H; unfold balance_tables_ok in H; apply andb_true_iff in H; exact H. Qed.
@@ -442,10 +456,22 @@ Proof.
     destruct ((t_disabled_check T && status_eqb (cst (top_of (stk st1))) Disabled) || dyn).
     - apply (proj1 (good_rel _ (bf false) st1)). apply Hbf.
     - apply (proj1 (good_rel _ _ st1)). apply good_exec_w_any; simpl; auto. }
+  assert (Hcall : forall ur (bf : bool -> M), (forall u st, good obs_true (bf u) st) ->
+            forall st, good obs_true (call_converted T ur dyn bf) st).
+  { intros ur bf Hbf st1. apply good_rel. unfold call_converted.
+    destruct ((t_disabled_check T && status_eqb (cst (top_of (stk st1))) Disabled) || dyn).
+    - apply (proj1 (good_rel _ (bf false) st1)). apply Hbf.
+    - apply (proj1 (good_rel _ _ st1)). apply good_exec_w_any; simpl; auto. }
+  assert (Hnest : forall ur rc (bf : bool -> M), (forall u st, good obs_true (bf u) st) ->
+            forall st, good obs_true (invoke_nested T ur rc dyn bf) st).
+  { intros ur rc bf Hbf st0. unfold invoke_nested. cbv zeta. apply good_exec_w_any; simpl; auto.
+    intro st1. destruct rc; [apply Hcall; exact Hbf | apply Hbf]. }
   apply good_rel. unfold invoke. cbv zeta.
-  destruct k as [| | |c|ur rc m|c cbd ur|ur|ur|rc|].
+  destruct k as [| | |c|ur rc m|c cbd ur|ur|ur|rc| |ur rc|rc].
   2:{ apply rel_of_good. apply good_exec_w_any; simpl; auto. }
   9:{ apply rel_of_good. apply Hb. }
+  9:{ apply rel_of_good. apply Hnest. intros; apply Hb. }
+  9:{ apply rel_of_good. apply Hnest. intros; apply Hb. }
   - apply rel_of_good. apply Hb.
   - apply rel_of_good. apply good_exec_w_any; simpl; auto.
   - destruct (eval_cexpr c st) as [x st1] eqn:E. destruct (eval_cexpr_frame _ _ _ _ E) as [S1 [S2 [S3 S4]]].
@@ -483,7 +509,9 @@ Proof.
   { intros v Hv s0. apply good_rel. unfold layer_convert. destruct (t_convert_skips_art T && artf); apply rel_of_good;
       [apply Hb | apply good_exec_w_any; simpl; auto]. }
   apply good_rel. unfold invoke_layer.
-  destruct l as [| | |c|ur rc m|c cbd ur|ur|ur|rc|].
+  destruct l as [| | |c|ur rc m|c cbd ur|ur|ur|rc| |ur rc|rc].
+  11:{ apply rel_of_good. apply Hb. }
+  11:{ apply rel_of_good. apply Hb. }
   - apply rel_of_good. apply Hb.
   - apply rel_of_good. apply Hd.
   - apply rel_of_good. apply Hu.
@@ -581,6 +609,28 @@ Proof.
     + destruct (HG _ eq_refl) as [G1 G2]. eapply good_call_converted; simpl; eauto.
 Qed.
 
+(* calling an inner function (nested def) of converted code: nothing is entered, the body sees the call site's context *)
+Lemma good_invoke_nested : forall T (G : bool -> ctx -> Prop) ur rc dyn (bf : bool -> M) st,
+  tables_ok T = true ->
+  (forall u st', G u (top_of (stk st')) -> good obs_spec (bf u) st') ->
+  G false (top_of (stk st)) ->
+  good obs_spec (invoke_nested T ur rc dyn bf) st.
+Proof.
+  intros T G ur rc dyn bf st Hok Hb HG.
+  destruct (tables_ok_inv T Hok) as [Hc [Hs [Hsh [Hi [Hen Htg]]]]].
+  destruct (shapes_ok_inv T Hsh) as [_ [_ [_ [Hcf _]]]].
+  destruct (tables_ok_scope_options T Hok) as [Htop [Hnest Hcall]].
+  destruct (scope_ok_inv T Hs) as [Hig _].
+  unfold invoke_nested. cbv zeta. rewrite Hnest, Hcall, Htop.
+  eapply good_shape; eauto; [exact I|].
+  intros v st1 Ev. simpl in Ev. rewrite Hig in Ev. simpl in Ev. inv Ev. unfold entered; simpl.
+  destruct rc.
+  - apply (good_call_converted T G false dyn bf st1 Hok Hb).
+    + intros _. exact HG.
+    + intros _ c _ C2. rewrite (C2 eq_refl). exact HG.
+  - apply Hb. exact HG.
+Qed.
+
 Ltac spec_split := unfold obs_spec; repeat split; try (intros; discriminate); try (simpl; intros; contradiction);
   try assumption; try (simpl; intros; reflexivity).
 
@@ -610,8 +660,15 @@ Proof.
   destruct (shapes_ok_inv T Hsh) as [Hdn [Hun [Hcv [Hcf Hwf]]]].
   destruct (scope_ok_inv T Hs) as [Hig _].
   pose proof (internal_ok_inv T Hi) as Hint.
+  destruct (tables_ok_scope_options T Hok) as [Htop _].
   apply good_rel. unfold invoke. cbv zeta.
-  destruct k as [| | |c|ur rc m|c cbd ur|ur|ur|rc|].
+  destruct k as [| | |c|ur rc m|c cbd ur|ur|ur|rc| |ur rc|rc]; rewrite ?Htop.
+  11:{ (* nested def of an entity converted by convert() *) apply rel_of_good.
+       eapply (good_invoke_nested T (fun u top => obs_spec (KNested ur rc) outer dyn None (cst (top_of (stk st))) u top)); eauto.
+       spec_split. }
+  11:{ (* nested def of an entity converted by to_graph() *) apply rel_of_good.
+       eapply (good_invoke_nested T (fun u top => obs_spec (KNestedG rc) outer dyn None (cst (top_of (stk st))) u top)); eauto.
+       spec_split. }
   - (* plain *) apply rel_of_good. apply Hb. spec_split.
   - (* do_not_convert *) apply rel_of_good. eapply good_shape; eauto; [exact I|].
     intros v st1 Ev. simpl in Ev. inv Ev. apply Hb. unfold entered; simpl. spec_split.
@@ -694,7 +751,7 @@ Proof.
   destruct (tables_ok_inv T Hok) as [Hc [Hs [Hsh _]]].
   destruct (tables_ok_flags T Hok) as [_ [Hd [Hu _]]].
   destruct (shapes_ok_inv T Hsh) as [Hdn [Hun _]].
-  destruct l as [| | |c|ur rc m|c cbd ur|ur|ur|rc|];
+  destruct l as [| | |c|ur rc m|c cbd ur|ur|ur|rc| |ur rc|rc];
     try (apply invoke_layer_good; [apply tables_ok_balance; exact Hok |
                                    intro s0; apply Hb; intros s E; discriminate]).
   - apply good_rel. unfold invoke_layer, layer_dnc. rewrite Hd. simpl.
